@@ -215,6 +215,8 @@ def split_monitors(line):
         mons += [re.sub(r"([:=]-?\d+|:[A-Za-z])$", "", t[2:]) for t in m]
         if rest:
             out.append(",".join(rest))
+        elif not all(t.startswith(("!!op-never-destroyed", "!!leak")) for t in m):
+            out.append("-")       # an event whose only observation was a monitor (the end-of-case monitors are dropped)
     return " | ".join(out), mons
 
 
